@@ -27,26 +27,30 @@ type Src struct {
 	Flushes []int  `json:"flushes,omitempty"` // lzma2: Flush after this many bytes
 
 	// origin ref (specification-driven generator, expanded from Seed)
-	Seed     uint64 `json:"seed,omitempty"`
-	Tape     []byte `json:"tape,omitempty"` // decisions replayed before Seed takes over (coverage-guided fuzzing)
-	NOps     int    `json:"nops,omitempty"`    // operations per LZMA chunk (upper bound)
-	NChunks  int    `json:"nchunks,omitempty"` // chunks per block
-	NBlocks  int    `json:"nblocks,omitempty"`
-	Big      bool   `json:"big,omitempty"` // one LZMA chunk with more than 1 MiB of output
+	Seed    uint64 `json:"seed,omitempty"`
+	Tape    []byte `json:"tape,omitempty"`    // decisions replayed before Seed takes over (coverage-guided fuzzing)
+	NOps    int    `json:"nops,omitempty"`    // operations per LZMA chunk (upper bound)
+	NChunks int    `json:"nchunks,omitempty"` // chunks per block
+	NBlocks int    `json:"nblocks,omitempty"`
+	Big     bool   `json:"big,omitempty"` // one LZMA chunk with more than 1 MiB of output
 	// extra chunks appended to the (first) chunk list whose header size fields
 	// take exactly these values: compressed size of an LZMA chunk (CFit, fitted
 	// with literals), uncompressed size of an LZMA chunk (UFit, long matches),
 	// size of an uncompressed chunk (RawFit)
-	CFit   int `json:"cfit,omitempty"`
-	UFit   int `json:"ufit,omitempty"`
-	RawFit int `json:"rawfit,omitempty"`
+	CFit     int    `json:"cfit,omitempty"`
+	UFit     int    `json:"ufit,omitempty"`
+	RawFit   int    `json:"rawfit,omitempty"`
 	Check    byte   `json:"check,omitempty"`
 	DictCode byte   `json:"dictcode,omitempty"`
 	Sizes    int    `json:"sizes,omitempty"`    // bit0 compressed size field, bit1 uncompressed
 	ExtraPad int    `json:"extrapad,omitempty"` // extra block header padding (x4 bytes)
 	SizeMode int    `json:"sizemode,omitempty"` // lzma: 0 marker, 1 size, 2 size+marker
+	MarkLen  int    `json:"marklen,omitempty"`  // lzma (ref): length coded in the end marker (0 = 2)
 	DictFld  uint32 `json:"dictfld,omitempty"`  // lzma: header dictionary field
 	Props    [3]int `json:"props,omitempty"`    // lzma (ref): lc lp pb
+
+	// origin ref, xz: CRC-valid lies about sizes and counts (hostile input)
+	Lies []Lie `json:"lies,omitempty"`
 
 	// origin liblzma
 	LZ liblz.Opts `json:"lz,omitempty"`
@@ -78,6 +82,18 @@ func (s Src) MarshalJSON() ([]byte, error) {
 	}
 	return json.Marshal(o)
 }
+
+// Lie replaces one metadata value of a generator-built xz stream by V while
+// every CRC32 stays correct. F: csize | usize (block header of block Blk),
+// count | rec_unpadded | rec_usize (index, record Blk), backward (footer).
+type Lie struct {
+	F   string `json:"f"`
+	Blk int    `json:"blk,omitempty"`
+	V   uint64 `json:"v"`
+}
+
+// HostileValues are the values lies are drawn from.
+var HostileValues = []uint64{0, 1, 2, 1<<31 - 1, 1 << 31, 1<<32 - 1, 1 << 32, 1 << 62, 1<<63 - 2, 1<<63 - 1, 1 << 63, 1<<64 - 1}
 
 // Built is the result of Build.
 type Built struct {
@@ -459,7 +475,10 @@ func (s Src) buildRef() (*Built, error) {
 		sim := ref.NewSim(s.DictFld)
 		sim.StateReset()
 		ops := OpsFrom(p, sim, s.NOps, 1<<22)
-		stream, plain, err := ref.EncodeLZMA(props, s.DictFld, ops, s.SizeMode)
+		stream, plain, err := ref.EncodeLZMAMarker(props, s.DictFld, ops, s.SizeMode, s.MarkLen)
+		if s.MarkLen > 2 && s.SizeMode != 1 {
+			feats["end_marker_length>2"] = true
+		}
 		if err != nil {
 			return nil, err
 		}
@@ -512,6 +531,35 @@ func (s Src) buildRef() (*Built, error) {
 		}
 		if s.ExtraPad != 0 {
 			feats["extra_header_padding"] = true
+		}
+		for _, l := range s.Lies {
+			v := l.V
+			switch l.F {
+			case "csize":
+				if l.Blk < len(sp.Blocks) {
+					sp.Blocks[l.Blk].CSizeLie = &v
+				}
+			case "usize":
+				if l.Blk < len(sp.Blocks) {
+					sp.Blocks[l.Blk].USizeLie = &v
+				}
+			case "count":
+				sp.CountLie = &v
+			case "rec_unpadded":
+				if sp.UnpaddedLie == nil {
+					sp.UnpaddedLie = map[int]uint64{}
+				}
+				sp.UnpaddedLie[l.Blk] = v
+			case "rec_usize":
+				if sp.RecUSizeLie == nil {
+					sp.RecUSizeLie = map[int]uint64{}
+				}
+				sp.RecUSizeLie[l.Blk] = v
+			case "backward":
+				w := uint32(v)
+				sp.BackwardLie = &w
+			}
+			feats["lie:"+l.F] = true
 		}
 		stream, plain, err := ref.EncodeXZ(sp)
 		if err != nil {
@@ -749,6 +797,7 @@ func DrawSrc(t *rapid.T, format string, maxData int, origins ...string) Src {
 			s.DictCode = byte(rapid.SampledFrom([]int{0, 0, 1, 2, 5, 8}).Draw(t, "dictcode"))
 		case "lzma":
 			s.SizeMode = rapid.IntRange(0, 2).Draw(t, "sizemode")
+			s.MarkLen = rapid.SampledFrom([]int{0, 0, 3, 9, 10, 18, 100, 273}).Draw(t, "marklen")
 			s.DictFld = rapid.SampledFrom([]uint32{0, 1, 4095, 4096, 4097, 8192, 65536, 1 << 20}).Draw(t, "dictfld")
 			s.Props = [3]int{rapid.IntRange(0, 8).Draw(t, "lc"), rapid.IntRange(0, 4).Draw(t, "lp"), rapid.IntRange(0, 4).Draw(t, "pb")}
 			if rapid.IntRange(0, 9).Draw(t, "empty") == 0 {
